@@ -325,7 +325,7 @@ def harness_results(data, text, harnesses):
                 "covers": [(c.get("description", ""), c.get("status", "")) for c in covers],
                 "own_asserts": [(c.get("description", ""), c.get("status", "")) for c in own_asserts],
                 "counts": pd.get(fq, {}),
-                "cbmc": (cb.get(fq) or {}).get("cbmc_stats", {}),
+                "cbmc": (cb.get(fq) or {}).get("cbmc_stats") or {},
                 "error": ed.get(fq, {}),
                 "nchecks": len(checks),
             }
